@@ -35,6 +35,24 @@ def gen_cases(tier, seed):
                       "unit_scale": i % 2 == 1})
         if cases[-1]["unit_scale"]:
             cases[-1]["class"] += "/unit-scale"
+            if i % 4 == 1:
+                # DENSE class: larger bounds on a tight buffer, backing store far more expensive than the buffer, free
+                # compute, energy only: a dense range of objective values, so that alternatives between (1+t) and
+                # (1+t)^2 times the optimum exist; the same spec is expressed in three different units
+                d = gs.gen_spec(rnd, rnd.choice(["mm1", "mv1"]), levels=2, size_class="tight", costs="tradeoff")
+                for rv in d["workload"]["ranks"]:
+                    d["workload"]["ranks"][rv] = rnd.choice([8, 12, 16])
+                sizes = sorted(gs.tensor_sizes(d["workload"]).values())
+                ratio = rnd.choice([1e-1, 1e-2, 1e-3])
+                m0, m1 = d["arch"]["mems"]
+                m0.update(read_e=1.0, write_e=1.0, read_tp="inf", write_tp="inf", keep="All", may_keep="All")
+                m1.update(size=rnd.randint(max(8, sizes[0] // 8), max(16, sizes[-1] // 2)) * d["workload"]["bits"],
+                          keep=rnd.choice(["All", "Nothing"]), may_keep="All", read_e=ratio, write_e=ratio, read_tp="inf", write_tp="inf")
+                d["arch"]["mac"].update(energy=rnd.choice([0, 0, ratio]), tp=1)
+                cases.pop()
+                for _ in range(3):
+                    cases.append({"class": d["class"].split("/")[0] + "/tight-dense/unit-scale", "desc": d, "metric": "ENERGY",
+                                  "seed": rnd.randrange(2**31), "unit_scale": True, "target": rnd.uniform(0.68, 0.99)})
     return cases
 
 
@@ -57,7 +75,7 @@ def run_case(case):
         # the same spec in other UNITS (joules instead of picojoules): costs rescaled so that the optimum - and
         # with it the per-Einsum parts the tolerance rounding works on - is of order 1
         # mostly just below 1: the bucket around log(x) = 0 is where rounding toward zero and rounding to nearest differ
-        target = rnd.uniform(0.68, 0.99) if rnd.random() < 0.7 else 10 ** rnd.uniform(-1.3, 1.3)
+        target = case.get("target") or (rnd.uniform(0.68, 0.99) if rnd.random() < 0.7 else 10 ** rnd.uniform(-1.3, 1.3))
         d = copy.deepcopy(d)
         e_scale = target / exact if metric == "ENERGY" else ((target / exact) ** 0.5 if metric == "ENERGY_DELAY_PRODUCT" else 1.0)
         l_scale = target / exact if metric == "LATENCY" else ((target / exact) ** 0.5 if metric == "ENERGY_DELAY_PRODUCT" else 1.0)
